@@ -153,10 +153,13 @@ impl Sim {
                 u.push(<Address as soroban_sdk::testutils::Address>::generate(&e));
             }
         }
+        // account 4 IS the votes-tracking token contract itself (registered at that address): it
+        // can hold tokens, be delegated to and delegate like any other account
+        let at = u.a(4).clone();
         let c = match kind {
-            Kind::Ex => e.register(fv_example::ExampleContract, (u.a(OWNER).clone(),)),
-            Kind::Fvb => e.register(fvb_contract::Fvb, ()),
-            Kind::Nft => e.register(nft_contract::Nfv, ()),
+            Kind::Ex => e.register_at(&at, fv_example::ExampleContract, (u.a(OWNER).clone(),)),
+            Kind::Fvb => e.register_at(&at, fvb_contract::Fvb, ()),
+            Kind::Nft => e.register_at(&at, nft_contract::Nfv, ()),
         };
         Sim { e, u, c, kind, now: start, start, min_temp, all_real, max_ttl, long: max_ttl != MAX_TTL, sticky: vec![] }
     }
@@ -365,15 +368,16 @@ impl Sim {
             _ => unreachable!("{}", op),
         };
         let q = self.window();
-        // ACCOUNT addresses (indices 1 and 3) cannot be mocked individually by the test host: when
+        // ACCOUNT addresses (indices 1 and 3) and the token contract itself (index 4) cannot be mocked
+        // individually by the test host: when
         // one of them signs and the principal of the call (always the first address) is among the
         // signers, everybody authorizes (recording mode, the op line then lists every address); otherwise
         // the account signers are dropped
         let mut auth: Vec<usize> = auth.to_vec();
-        let has_acct = auth.iter().any(|&i| i == 1 || i == 3);
+        let has_acct = auth.iter().any(|&i| i == 1 || i == 3 || i == 4);
         let all_auth = has_acct && !a.is_empty() && auth.contains(&a[0]);
         if has_acct && !all_auth {
-            auth.retain(|&i| i != 1 && i != 3);
+            auth.retain(|&i| i != 1 && i != 3 && i != 4);
         }
         if all_auth {
             // recording mode: EVERY address authorizes, and the op line says so
